@@ -36,6 +36,7 @@ class RefResult:
         self.full_log = st.full_log
         self.choosers = st.choosers
         self.chooser_failed = st.chooser_failed
+        self.tmpl_reads = st.tmpl_reads
 
     def key(self):
         return ("ok", self.value) if self.ok else ("fail", self.fails)
@@ -48,6 +49,7 @@ class _State:
     def __init__(self):
         self.reads = {}       # key -> present?
         self.read_log = []    # (key, present?) in order
+        self.tmpl_reads = {}  # keys read as template references -> present?
         self.choosers = set() # bodies executed while computing a value that selects a branch / assignment
         self.chooser_depth = 0
         self.chooser_failed = False
@@ -209,6 +211,7 @@ class Ref:
         self.note_walk(key, o)
         v = dotted_get(o, key)
         self.st.reads[key] = v is not ABSENT
+        self.st.tmpl_reads[key] = v is not ABSENT
         self.st.read_log.append((key, v is not ABSENT))
         if v is ABSENT:
             raise RFail({("missing", key)})
